@@ -468,6 +468,33 @@ class Frame:
                             st.env[c.func.value.id] = ("d", tuple((k, v) for k, v in d[1] if k != T.K("**")))
                             ev.unrolled.append((s, self.f, -1))
                             return
+            # a reduction written as a loop: `acc = 0` / `acc = seq[0]`, then `for v in seq` / `for v in seq[1:]`: `acc += v` (or `acc = acc + v`)
+            # is sum(seq); the value number is that of the library reduction, so both spellings compare equal
+            if len(s.body) == 1 and isinstance(s.target, ast.Name) and not s.orelse:
+                b0 = s.body[0]
+                acc = None
+                if isinstance(b0, ast.AugAssign) and isinstance(b0.op, ast.Add) and isinstance(b0.target, ast.Name) and isinstance(b0.value, ast.Name) and b0.value.id == s.target.id:
+                    acc = b0.target.id
+                elif isinstance(b0, ast.Assign) and len(b0.targets) == 1 and isinstance(b0.targets[0], ast.Name) and isinstance(b0.value, ast.BinOp) and isinstance(b0.value.op, ast.Add):
+                    l_, r_ = b0.value.left, b0.value.right
+                    names = {getattr(l_, "id", None), getattr(r_, "id", None)}
+                    if isinstance(l_, ast.Name) and isinstance(r_, ast.Name) and names == {b0.targets[0].id, s.target.id} and b0.targets[0].id != s.target.id:
+                        acc = b0.targets[0].id
+                if acc is not None and acc in st.env:
+                    a0 = st.env[acc]
+                    seq = None
+                    if a0 == T.ZERO:
+                        seq = dom
+                    elif isinstance(s.iter, ast.Subscript) and isinstance(s.iter.slice, ast.Slice) and s.iter.slice.upper is None and s.iter.slice.step is None \
+                            and isinstance(s.iter.slice.lower, ast.Constant) and s.iter.slice.lower.value == 1:
+                        base_seq = self.eval(s.iter.value, st)
+                        if a0 == ("s", base_seq, T.const(0)):
+                            seq = base_seq
+                    if seq is not None:
+                        st.env[acc] = norm_app("sum", (seq,))
+                        st.env[s.target.id] = ("f", "elem", (dom,), ())
+                        ev.unrolled.append((s, self.f, -2))
+                        return
         assigned, attr_assigned = _assigned_names(s)
         if ev.loop_mode == "skip" and isinstance(s, ast.While):
             t0 = self.eval(s.test, st)
